@@ -2,6 +2,7 @@
 Props/C06.lean — each output element depends only on its own source, path index and observer.
 -/
 import MagpyVerif.Lemmas.TrimeshBatch
+import MagpyVerif.Lemmas.Polyline
 import MagpyVerif.Lemmas.Level2Shape
 namespace MagpyVerif.C06
 open MagpyVerif MagpyVerif.Level2
@@ -238,5 +239,23 @@ theorem trimesh_row_independent_of_batch {M O V : Type} [DecidableEq M] [Add V]
 -- non-vacuity: meshes A B A with the middle observer inside A only: the middle row (mesh B) gets nothing
 example : MagpyVerif.Trimesh.addInside (fun (m : Nat) (x : Nat) => m == 0 && x == 1)
     [(⟨0, 0, 5, 0⟩ : MagpyVerif.Trimesh.Row Nat Nat Int), ⟨1, 1, 7, 0⟩, ⟨0, 1, 9, 0⟩] = [(0 : Int), 0, 9] := by decide
+
+/-! ### kernels with batch-level control flow: Polyline -/
+
+/-- C06 (Polyline): `current_vertices_field` evaluates a batch of Polyline instances through ONE flat call of the segment
+kernel — observers and currents repeated per segment, segment starts/ends concatenated — and then cuts the result back
+into instances, by `reshape((n0, n1-1, 3)).sum(axis=1)` when all instances have the same number of vertices and by
+`np.split` at the cumulative segment counts otherwise.  In both branches, for every batch (any number of instances, any mix
+of vertex counts, also instances with a single vertex), each instance gets exactly the sum over ITS OWN consecutive
+vertex pairs at ITS OWN observer with ITS OWN current. -/
+theorem polyline_batch_rowwise {α : Type} [Kern.Num α] (f : Kern.Field) (insts : List (Kern.PolyInst α)) :
+    Kern.verticesField f insts = insts.map fun i => Kern.polylineRow f i.cur i.verts i.obs :=
+  Kern.verticesField_rowwise f insts
+
+/-- the two branches agree wherever both apply -/
+theorem polyline_branches_agree {α : Type} [Kern.Num α] (f : Kern.Field) (n1 : Nat) (insts : List (Kern.PolyInst α))
+    (h : ∀ i ∈ insts, i.verts.length = n1) :
+    Kern.verticesFieldEqual f n1 insts = Kern.verticesFieldRagged f insts := by
+  rw [Kern.verticesFieldEqual_rowwise f n1 insts h, Kern.verticesFieldRagged_rowwise]
 
 end MagpyVerif.C06
